@@ -22,6 +22,7 @@ C05-d counter dimension: what is added to superblock.freeBlocks / groupDescripto
 C05-e layout agreement (byte-layout extraction) of superblock, group descriptor, inode and directory entry encoders and parsers.
 C05-f a removed inode is released on disk: Remove stores 0 into the removed inode's link count (or a deletion time) and writes that inode back, so that the inode table agrees with the cleared bitmap bit.
 C05-g writeDirectory stores a directory inode's size and block count so that they depend on the block count of its extents (a directory never gives blocks back).
+C05-j every computation of the number of blocks of a group's inode table (a quotient whose dividend depends on inodes-per-group and whose divisor depends on the block size) rounds up: sibling sites that round differently disagree on where the table ends whenever the inodes do not fill the last block, and the free-block counts and bitmap locations built from them contradict each other.
 C05-h a symlink target is kept in the inode exactly when it is shorter than 60 bytes: every comparison of a symlink length with the limit in Symlink, inode.toBytes and inodeFromBytes splits at 60.
 C05-i the length to which Directory.toBytes pads the last entry of a block depends on withChecksums (room for the checksum tail).
 Not covered: layout at mkfs time, link counts of parents, extent trees, directory block packing, what happens after a refused operation.`)
@@ -62,6 +63,8 @@ func runC05(w *World, r *Report) {
 	c05DirSize(w, r)
 	c05SymlinkLimit(w, r, "C05-h")
 	c05DirRecLen(w, r)
+	c05InodeTableBlocks(w, r)
+	r.Floor("C05-j", r.countRule("C05-j"), 2)
 	r.Floor("C05-h", r.countRule("C05-h"), 4)
 	r.Floor("C05-i", r.countRule("C05-i"), 2)
 	r.Floor("C05-g", r.countRule("C05-g"), 2)
@@ -361,10 +364,62 @@ func c05Flush(w *World, r *Report) {
 				}
 				stack = append(stack, x.Succs...)
 			}
-			if flushes {
-				return 1 << 0, true
+			if !flushes {
+				return 0, false
 			}
-			return 0, false
+			// the flush must be the last word of an iteration: nothing that dirties the object again (a bitmap write, a
+			// field store, an in-package call that is not itself a flush) may follow it before the loop head is reached
+			// again, or the last element handled stays dirty when the loop is left
+			body := seen
+			dirtyAfter := false
+			isDirtying := func(ins ssa.Instruction) bool {
+				if _, ok := sp.dirty(ins); ok {
+					return true
+				}
+				c, ok := ins.(ssa.CallInstruction)
+				if !ok || sp.flush(c) {
+					return false
+				}
+				g := c.Common().StaticCallee()
+				return g != nil && w.pkgOf(g) == pE4c && !strings.HasPrefix(g.Name(), "Errorf")
+			}
+			for x := range body {
+				if x == b {
+					continue
+				}
+				for i, ins := range x.Instrs {
+					c, ok := ins.(ssa.CallInstruction)
+					if !ok || !sp.flush(c) {
+						continue
+					}
+					// forward from just after this flush, inside the body, until the head
+					for _, later := range x.Instrs[i+1:] {
+						if isDirtying(later) {
+							dirtyAfter = true
+						}
+					}
+					vis := map[*ssa.BasicBlock]bool{x: true, b: true}
+					st := append([]*ssa.BasicBlock{}, x.Succs...)
+					for len(st) > 0 {
+						y := st[len(st)-1]
+						st = st[:len(st)-1]
+						if vis[y] || !body[y] {
+							continue
+						}
+						vis[y] = true
+						for _, later := range y.Instrs {
+							if isDirtying(later) {
+								dirtyAfter = true
+							}
+						}
+						st = append(st, y.Succs...)
+					}
+				}
+			}
+			if dirtyAfter {
+				return 0, false
+			}
+			return 1 << 0, true
 		}
 		if os.Getenv("DFS_C05_DEBUG") != "" {
 			for _, f := range fns {
@@ -1045,7 +1100,6 @@ func c04WriteBack(w *World, r *Report) {
 			fmt.Sprintf("a success return (%s) is reachable after a store to %s without writeInode: the change is visible on the live handle and lost when the image is re-opened", bad, last))
 	}
 }
-
 
 // eofEdgeInfeasible: the edge of `err == io.EOF` / `err != io.EOF` on which err IS io.EOF, where err is the error
 // of an in-package call whose (in-package) call closure never mentions io.EOF: that callee cannot return it.
@@ -1833,5 +1887,44 @@ func c05DirRecLen(w *World, r *Report) {
 	}
 	if n == 0 {
 		r.Undecided("C05-i", fnName(tb), "padded entries", w.relFile(tb.Pos()), "Directory.toBytes pads no entry through directoryEntry.toBytes")
+	}
+}
+
+// c05InodeTableBlocks (C05-j): the size of the inode table in blocks is ceil(inodesPerGroup*inodeSize / blockSize) at
+// every site that computes it.
+func c05InodeTableBlocks(w *World, r *Report) {
+	n := 0
+	for _, fn := range w.ModFns {
+		if w.pkgOf(fn) != pE4c {
+			continue
+		}
+		k := 0
+		allInstrs(fn, func(ins ssa.Instruction) {
+			q, ok := ins.(*ssa.BinOp)
+			if !ok || q.Op != token.QUO {
+				return
+			}
+			if _, isC := constInt(q.Y); isC {
+				return
+			}
+			px, py := w.prov(q.X, provOpts{}), w.prov(q.Y, provOpts{})
+			if !px.hasField("superblock", "inodesPerGroup") || !py.hasField("superblock", "blockSize") {
+				return
+			}
+			if py.hasField("superblock", "inodesPerGroup") {
+				return
+			}
+			if !px.hasField("superblock", "inodeSize") && !py.hasField("superblock", "inodeSize") {
+				return // some other per-group quantity (bitmap blocks), not the table of inodeSize-byte records
+			}
+			k++
+			n++
+			rd := quotRounding(q)
+			r.Check(rd == "ceil", "C05-j", fnName(fn), fmt.Sprintf("inode table size in blocks rounds up #%d", k), w.relFile(q.Pos()), rd,
+				"the number of inode-table blocks of a group is computed with a division that rounds down: when the inodes of a group do not fill the last block (4 KiB blocks, inodes per group not a multiple of 16) this site places the end of the table one block earlier than the sites that round up, so descriptors, bitmaps and free counts disagree (e2fsck fails right after Create)")
+		})
+	}
+	if n == 0 {
+		r.Undecided("C05-j", "filesystem/ext4", "inode table size", "filesystem/ext4", "no computation of the inode table size from inodes-per-group and block size found")
 	}
 }
